@@ -37,6 +37,10 @@ pub enum Call {
     CollectIn(K),
     /// bfs().target(t).search()
     Bfs(K, K),
+    /// dfs().target(t).search_path() and pfs().target(t).search_path()
+    DfsPfs(K, K),
+    /// preorder / postorder (order().pre()/.post()) search_nodes and a dfs cycle search
+    Orders(K),
 }
 
 impl Call {
@@ -54,14 +58,16 @@ impl Call {
             Call::Collect(u) => format!("n{}.iter().collect()", u),
             Call::CollectIn(u) => format!("n{}.iter_in().collect()", u),
             Call::Bfs(u, t) => format!("n{}.bfs().target(&{}).search()", u, t),
+            Call::DfsPfs(u, t) => format!("n{}.dfs()/.pfs().target(&{}).search_path()", u, t),
+            Call::Orders(u) => format!("n{}.preorder()/.postorder().search_nodes(); n{}.dfs().search_cycle()", u, u),
         }
     }
     fn nodes(&self) -> Vec<K> {
         match *self {
             Call::Mut(Op::Connect(u, v, _)) | Call::Mut(Op::TryConnect(u, v, _)) | Call::Mut(Op::Disconnect(u, v)) => vec![u, v],
             Call::Mut(Op::Isolate(u)) => vec![u],
-            Call::Degree(u) | Call::InDegree(u) | Call::IsOrphan(u) | Call::Collect(u) | Call::CollectIn(u) => vec![u],
-            Call::IsConnected(u, v) | Call::Find(u, v) | Call::Bfs(u, v) => vec![u, v],
+            Call::Degree(u) | Call::InDegree(u) | Call::IsOrphan(u) | Call::Collect(u) | Call::CollectIn(u) | Call::Orders(u) => vec![u],
+            Call::IsConnected(u, v) | Call::Find(u, v) | Call::Bfs(u, v) | Call::DfsPfs(u, v) => vec![u, v],
         }
     }
     /// Name with nodes renamed through `map` and edge values dropped.
@@ -79,6 +85,8 @@ impl Call {
             Call::Collect(u) => format!("collect({})", map(u)),
             Call::CollectIn(u) => format!("collect_in({})", map(u)),
             Call::Bfs(u, v) => format!("bfs({},{})", map(u), map(v)),
+            Call::DfsPfs(u, v) => format!("dfs_pfs({},{})", map(u), map(v)),
+            Call::Orders(u) => format!("orders({})", map(u)),
         }
     }
 }
@@ -189,6 +197,22 @@ fn do_call<F: Fl>(nodes: &[F::Node], c: &Call) -> CallRet {
         }
         Call::Bfs(u, t) => {
             let cfg = Cfg { kind: Kind::Bfs, transpose: false, target: Some(t), meth: Meth::None, res: ResK::Search };
+            let _ = F::search(n(u), &cfg, &mut |_| true);
+            CallRet::Returned
+        }
+        Call::DfsPfs(u, t) => {
+            for kind in [Kind::Dfs, Kind::PfsMin] {
+                let cfg = Cfg { kind, transpose: false, target: Some(t), meth: Meth::None, res: ResK::Path };
+                let _ = F::search(n(u), &cfg, &mut |_| true);
+            }
+            CallRet::Returned
+        }
+        Call::Orders(u) => {
+            for kind in [Kind::Pre, Kind::Post] {
+                let cfg = Cfg { kind, transpose: false, target: None, meth: Meth::None, res: ResK::Nodes };
+                let _ = F::search(n(u), &cfg, &mut |_| true);
+            }
+            let cfg = Cfg { kind: Kind::Dfs, transpose: false, target: None, meth: Meth::None, res: ResK::Cycle };
             let _ = F::search(n(u), &cfg, &mut |_| true);
             CallRet::Returned
         }
@@ -758,6 +782,7 @@ pub fn queries(n: usize, directed: bool) -> Vec<Call> {
         }
         v.push(Call::IsOrphan(u));
         v.push(Call::Collect(u));
+        v.push(Call::Orders(u));
         if directed {
             v.push(Call::CollectIn(u));
         }
@@ -766,6 +791,7 @@ pub fn queries(n: usize, directed: bool) -> Vec<Call> {
             v.push(Call::Find(u, w));
             if u != w {
                 v.push(Call::Bfs(u, w));
+                v.push(Call::DfsPfs(u, w));
             }
         }
     }
@@ -912,6 +938,8 @@ fn rename_call(c: &Call, m: &[K]) -> Call {
         Call::Collect(u) => Call::Collect(r(u)),
         Call::CollectIn(u) => Call::CollectIn(r(u)),
         Call::Bfs(u, v) => Call::Bfs(r(u), r(v)),
+        Call::DfsPfs(u, v) => Call::DfsPfs(r(u), r(v)),
+        Call::Orders(u) => Call::Orders(r(u)),
     }
 }
 
